@@ -311,11 +311,11 @@ func (env *AbsEnv) EvalCond(e ast.Expr) (condVal, bool) {
 		}
 		o := Callee(env.Info, x)
 		f := env.Funcs(o)
-		if f == nil || len(f.Body.List) != 1 {
+		if f == nil {
 			return condVal{}, false
 		}
-		rs, ok := f.Body.List[0].(*ast.ReturnStmt)
-		if !ok || len(rs.Results) != 1 {
+		rs := SoleReturn(f.Info(), f.Body)
+		if rs == nil || len(rs.Results) != 1 {
 			return condVal{}, false
 		}
 		var param types.Object
@@ -584,6 +584,9 @@ func RunClassifier(f *Func, env *AbsEnv, domain IvSet) ClassResult {
 				}
 			case *ast.AssignStmt:
 				// constant assignment to a local: maxlen := 80 / maxlen = 350
+				if Inert(info, x) {
+					continue
+				}
 				if len(x.Lhs) == 1 && len(x.Rhs) == 1 {
 					if id, ok := x.Lhs[0].(*ast.Ident); ok {
 						o := info.Defs[id]
